@@ -9,6 +9,7 @@ import inspect
 import itertools
 
 from . import sigs, oracle
+from . import core
 from .sigs import PO, PK, VA, KO, VK, KIND_OF
 from .sigutil import show, show_params, safe_eq
 
@@ -119,6 +120,7 @@ def build_pair(fparams, decorate_src, ref_params, method=False, extra_globals=No
     return g[fn], g['ref_' + fn], g
 
 
+@core.guarded(None)
 def check_case(ctx, prop, fparams, decorate_src, make_kwo, make_po, admissible, method=False,
                label=''):
     """One decoration.  `decorate_src` = decorator lines (outermost first)."""
